@@ -54,22 +54,39 @@ pub fn check_case(case: &Case) -> CheckResult {
         .iter()
         .filter(|e| e.variant != "User")
         .collect();
-    // syntax diagnostics that went through the parse-error formatter carry a context message
-    let diags: Vec<_> = pr
-        .diagnostics
-        .iter()
-        .filter(|d| d.context_message.is_some())
-        .collect();
-    if records.len() != diags.len() {
-        r.fail(format!(
-            "{} expectation vectors were handed to the formatter but {} formatted syntax diagnostics were reported",
-            records.len(),
-            diags.len()
-        ));
-        return r;
+    // Pair every expectation vector with the syntax diagnostic reported for the same source
+    // span (hook H2 records the span of the parse error it was recorded for). Pairing is by
+    // position only - never by wording, context message or hint, which no property pins -
+    // and in emission order among diagnostics at the same span. Diagnostics left over were not
+    // produced by the formatter (e.g. the transact-code check inside a grammar action).
+    let mut taken = vec![false; pr.diagnostics.len()];
+    let mut pairs: Vec<(&aidl_parser::verif_hooks::ExpectedRecord, &aidl_parser::diagnostic::Diagnostic)> = Vec::new();
+    for rec in &records {
+        let found = rec.span.and_then(|(lo, hi)| {
+            pr.diagnostics
+                .iter()
+                .enumerate()
+                .position(|(k, d)| !taken[k] && d.range.start.offset == lo && d.range.end.offset == hi)
+        });
+        match found {
+            Some(k) => {
+                taken[k] = true;
+                pairs.push((*rec, &pr.diagnostics[k]));
+            }
+            // no diagnostic at that span: the error was not reported (or reported elsewhere);
+            // nothing "reports what was expected" for this vector - C03 / C04 / C14 speak
+            // about missing and misplaced syntax errors, C20 does not
+            None => r.outcomes.push("vector-without-diagnostic-at-its-span".into()),
+        }
     }
-    r.outcomes.push(format!("errors-per-parse:{}", records.len().min(4)));
-    for (rec, d) in records.iter().zip(diags.iter()) {
+    r.outcomes.push(format!("errors-per-parse:{}", pairs.len().min(4)));
+    for (rec, d) in pairs.iter() {
+        // the statement speaks about errors that report an expectation; formatter calls
+        // without an expectation set (invalid / extra token) have nothing to name
+        if rec.expected.is_empty() && !d.message.contains('\n') {
+            r.outcomes.push("expected-set-size:00".into());
+            continue;
+        }
         let mut want: Vec<String> = rec.expected.clone();
         let mut got = names_in_message(&d.message);
         let want_ordered = want.clone();
